@@ -453,6 +453,10 @@ class Exec:
         if len(op) > 6 and op[6] == 'forge':
             # same CRC as what is stored now (empty for a new file), different content
             cur = self.mem.get(self.canon.get(key3, ''), b'') if kind == 'over' else b''
+            if len(cur) >= 8 and dseed % 2:
+                # ... and the same length as well: nothing but the bytes themselves tells the two versions apart
+                data = make_data(len(cur) - 4, dseed)
+                self.run.count('forged_crc_and_length_writes')
             data = forge_same_crc(data, zlib.crc32(cur))
             forged, previous = data != cur, cur
         self._files_before = sorted(os.listdir(self.dir))
@@ -813,7 +817,7 @@ def main(run, shard=(0, 1)) -> None:
         shutil.rmtree(base, ignore_errors=True)
     probe.report(run)
     probe.check_reached(run)
-    run.require('files_created_relative_to_root', 'dir_limit_set_as_attribute', 'operations', 'dirfile_writes', 'file_reads_compared', 'decoder_files_compared', 'name_forms_compared',
+    run.require('files_created_relative_to_root', 'dir_limit_set_as_attribute', 'forged_crc_and_length_writes', 'operations', 'dirfile_writes', 'file_reads_compared', 'decoder_files_compared', 'name_forms_compared',
                 'readonly_rejections', 'overwrites', 'deletes', 'writes_crossing_preload_limit', 'writes_over_64k',
                 'open_a', 'open_r', 'open_w')
 
